@@ -135,9 +135,14 @@ def exhaustive_tuples(rng):
                     out.append((Get(x, items[:k] + [("n",)] + items[k:]), "exhaustive-none", torch.float64, coqrun.Z))
     return out
 
+def _stale_block(V, rng, tier):
+    """apply_mask / full read, the object changed in place, read again - see harness/staleprobe.py"""
+    import torch, torchtt, staleprobe
+    return {"read_mutate_read_probe_readouts": staleprobe.run_block(V, rng, torch, torchtt, "apply_mask / full", ["cores", "svd", "arith"], 8 if tier == "quick" else 80)}
+
 def run(tier, seed, replay=None):
     import torch
     dtypes = [(torch.float64, coqrun.Z), (torch.complex128, coqrun.ZI), (torch.float64, coqrun.Z), (torch.float32, coqrun.Z)]
     return exprcheck.run(PID, tier, seed, gen_case, 500, 8000, RULE + ("; thorough tier additionally enumerates EVERY index tuple over a 7-item alphabet for all shapes of "
                          "order 1..3 with mode sizes 1..3 (with Ellipsis and None variants)" if tier == "thorough" else ""), nontrivial, dtypes, key_of=key_of,
-                         extra_cases=exhaustive_tuples if tier == "thorough" else None)
+                         extra_cases=exhaustive_tuples if tier == "thorough" else None, post=_stale_block)
